@@ -23,6 +23,18 @@ CHECKS = {
  "C09": dict(level="exploration", engine="E2 fakekernel (+E1 soak)", technique="runtime monitoring: deadlock detection at quiescence under an interposed kernel that controls exit batching and SIGCHLD delivery, plus exactly-one-outcome and attribution oracle",
              text="Liveness restated as bounded progress: whenever no task process is running and no SIGCHLD is pending, `cond run` must not be blocked; the interposed kernel detects that state instead of waiting. Each needed task must have exactly one outcome matching the kernel's wait status of its process.",
              note=E2_NOTE + " True liveness under OS-level starvation is out of reach for runtime monitoring.", ref="DESIGN.md §3 C09"),
+ "C14": dict(level="exploration", engine="E5 frontend", technique="runtime monitoring: the real loader/validator executed on exhaustively enumerated small digraphs and random multi-file graphs, result compared with an independent colour-DFS reference analysis; CLI sample with spawn/output observation",
+             text="All digraphs (self-loops included) on 3 tasks x every dependency-list order x every target (and with an undefined dependency; thorough: all 65 536 four-task edge sets) plus random multi-file graphs with duplicate listings are loaded by the real TaskIndex.load_transitive_closure and the explorer's whole-project validation; a CLI sample checks exit status, ERROR kind and that nothing ran.",
+             note="Trusted base: the reference graph analysis (colour DFS, 40 lines), the generator. Exhaustive only inside the stated small scopes; beyond that sampled.", ref="DESIGN.md §3 C14"),
+ "C16": dict(level="fault_enumeration", engine="E2 fakekernel + sys.monitoring line-level signal injection", technique="runtime monitoring with fault injection: SIGINT/SIGTERM raised at enumerated main-thread line events of real cond run executions over the interposed kernel; oracle over kernel log (live children vs SIGTERM sent), exit path and index rows",
+             text="For 9 scenarios every distinct file:line site of conductor.* (thorough: every line event, plus subprocess.py lines, i.e. inside Popen.__init__ after fork) receives an injected SIGINT/SIGTERM via signal.raise_signal so that the registered handler raises in the executing frame. Oracle: every spawned, still-running child got SIGTERM; exit non-zero through the abort report; no row for a task that had not exited 0.",
+             note=E2_NOTE + " One signal per run; signals before register_signal_handlers() are out of scope.", ref="DESIGN.md §3 C16"),
+ "C19": dict(level="translation_validation", engine="E5 frontend + E2", technique="runtime differential monitoring: each generated run_experiment_group definition and its documented expansion go through the real loader (and a sample through real execution over the interposed kernel); loaded task sets and event logs must be equal",
+             text="Translation validation per definition: group form vs explicit run_experiment*/combine form, both through the real loader; compares identifier, type, ordered deps, args/options (command line and JSON, type-exact), parallelizable, run; rejected iff rejected; a sample of pairs is executed with the same scheduler seed and the event logs compared.",
+             note="Trusted base: the expansion writer (from the documentation's usage example). No model of the loader is used.", ref="DESIGN.md §3 C19"),
+ "C20": dict(level="exploration", engine="E5 frontend", technique="runtime monitoring: exhaustive bounded string enumeration through the real identifier functions against a hand-written recursive-descent recogniser; round-trip/canonical-form postconditions; injectivity of output paths through the real task types; CLI sample",
+             text="Every string over a 13-symbol alphabet up to length 5 (thorough: 6, and 7-9 over a reduced alphabet) is pushed through is_name_valid / from_str (both prefix modes) / from_relative_str and compared with an independent recogniser; accepted strings are round-tripped; output directories of 400+ (identifier, version) pairs must be pairwise distinct and follow the documented layout; ':name' resolution checked through the real loader; `cond where -f` / `cond run --check` samples.",
+             note="Trusted base: the recogniser (no `re`), written from the documented grammar. Exhaustive inside the length bound only.", ref="DESIGN.md §3 C20"),
 }
 
 def main():
@@ -49,7 +61,9 @@ def main():
         "hooks": {"guard": "CONDUCTOR_VERIF", "enable": "no source hooks: all instrumentation is injected from /verif (interposed stdlib entry points, audit hooks, sys.monitoring); checks import /repo/src directly", 
                   "baseline_off_cmd": "cd /repo && /venv/bin/python -m pytest -ra -q -p no:cacheprovider --timeout=900 --continue-on-collection-errors", "source_commits": [], "add_only": True},
         "engines": [
-            {"name": "E2 fakekernel", "path": "cverif/fakekernel.py", "serves_properties": ["C01", "C02", "C03", "C04", "C09", "C16"], "kind_free_text": "real Conductor + real CPython subprocess lifecycle over an interposed process kernel with scheduler strategies; history recorder"},
+            {"name": "E2 fakekernel", "path": "cverif/fakekernel.py", "serves_properties": ["C01", "C02", "C03", "C04", "C09", "C16", "C19"], "kind_free_text": "real Conductor + real CPython subprocess lifecycle over an interposed process kernel with scheduler strategies; history recorder"},
+            {"name": "E5 frontend", "path": "cverif/checks/c14.py", "serves_properties": ["C14", "C15", "C19", "C20"], "kind_free_text": "in-process input-space workloads over the real parser/validator/identifier code with reference-model oracles"},
+            {"name": "cli runner", "path": "cverif/cli.py", "serves_properties": ["C05", "C06", "C07", "C08", "C10", "C11", "C12", "C13", "C14", "C15", "C17", "C18", "C20"], "kind_free_text": "runs the real CLI (forked from a warmed interpreter, or a separate python -m conductor) with optional audit-hook trace, clock script, crash-at-line"},
         ],
         "checks": checks,
         "not_applicable": na,
